@@ -164,6 +164,8 @@ REPRS = {}           # id(value) -> repr(value) taken OUTSIDE any print (indepen
 
 
 def _body(v, ctx, me):
+    if not NESTED[0]:
+        INVOKED.add(id(v))
     if NESTED[0]:
         # a print nested inside the fall-back repr() of a pretty_repr class: healthy, not a fault site
         return P.pretty_call(ctx, type(v), *v.kids, name=v.name)
@@ -315,47 +317,67 @@ def gen_tree(r, budget, depth=0, pool=None):
     return node
 
 
-def build(node, env):
+OCC = []          # (id of a harness object, visibility of this occurrence: True / False / None=unknown)
+INVOKED = set()   # ids of harness objects whose printer ran during the current print
+
+
+def _vis(vis, i, limit):
+    """visibility of the i-th element of a plain list / tuple / dict under max_seq_len=limit"""
+    if vis is False:
+        return False
+    if limit is not None and i >= limit:
+        return False
+    return vis
+
+
+def build(node, env, vis=True):
     t = node[0]
+    limit = SETTINGS.get('max_seq_len')
     if t == 'leaf':
         return node[1]
     if t == 'ref':
-        return env[node[1] % len(env)] if env else 0
+        v = env[node[1] % len(env)] if env else 0
+        if isinstance(v, Node):
+            OCC.append((id(v), vis))
+        return v
     if t == 'c':
-        return P.comment(build(node[2], env), node[1])
+        return P.comment(build(node[2], env, vis), node[1])
     if t == 'tc':
-        return P.trailing_comment(build(node[2], env), node[1])
+        return P.trailing_comment(build(node[2], env, vis), node[1])
+    if t not in ('obj', 'list', 'tuple', 'dict') and vis is not False:
+        vis = None      # below other container kinds: no claim about what is shown
     if t == 'obj':
-        v = KINDS[node[1]](node[2], [build(k, env) for k in node[3]])
+        v = KINDS[node[1]](node[2], [build(k, env, vis) for k in node[3]])
+        OCC.append((id(v), vis))
     elif t == 'list':
-        v = [build(k, env) for k in node[1]]
+        v = [build(k, env, _vis(vis, i, limit)) for i, k in enumerate(node[1])]
     elif t == 'tuple':
-        v = tuple(build(k, env) for k in node[1])
+        v = tuple(build(k, env, _vis(vis, i, limit)) for i, k in enumerate(node[1]))
     elif t == 'dict':
-        v = {k: build(x, env) for k, x in node[1]}
+        v = {k: build(x, env, _vis(vis, i, limit)) for i, (k, x) in enumerate(node[1])}
     elif t == 'ndict':
         v = NDict(zeta=1, alpha=2)
         for i, k in enumerate(node[1]):
-            v['c%d' % i] = build(k, env)
+            v['c%d' % i] = build(k, env, vis)
     elif t == 'nlist':
-        v = NList(build(k, env) for k in node[1])
+        v = NList(build(k, env, vis) for k in node[1])
     elif t == 'deque':
-        v = collections.deque(build(k, env) for k in node[1])
+        v = collections.deque(build(k, env, vis) for k in node[1])
     elif t == 'odict':
-        v = collections.OrderedDict(('o%d' % i, build(k, env)) for i, k in enumerate(node[1]))
+        v = collections.OrderedDict(('o%d' % i, build(k, env, vis)) for i, k in enumerate(node[1]))
     elif t == 'ddict':
-        v = collections.defaultdict(list, {('d%d' % i): build(k, env) for i, k in enumerate(node[1])})
+        v = collections.defaultdict(list, {('d%d' % i): build(k, env, vis) for i, k in enumerate(node[1])})
     elif t == 'chainmap':
-        v = collections.ChainMap({('m%d' % i): build(k, env) for i, k in enumerate(node[1])}, {'z': 0})
+        v = collections.ChainMap({('m%d' % i): build(k, env, vis) for i, k in enumerate(node[1])}, {'z': 0})
     elif t == 'ns':
-        v = types.SimpleNamespace(**{('a%d' % i): build(k, env) for i, k in enumerate(node[1])})
+        v = types.SimpleNamespace(**{('a%d' % i): build(k, env, vis) for i, k in enumerate(node[1])})
     elif t == 'ntuple':
-        kids = [build(k, env) for k in node[1]]
+        kids = [build(k, env, vis) for k in node[1]]
         v = (NT1 if len(kids) == 1 else NT2)(*kids[:2])
     elif t == 'objkeys':
         v = {}
         for i, k in enumerate(node[1]):
-            key = build(k, env)
+            key = build(k, env, vis)
             try:
                 hash(key)
             except TypeError:
@@ -489,6 +511,9 @@ def execute(spec):
     if spec.get('bundled', 'none') != 'none':
         wrapped = wrap_bundled(BUNDLED_CONTAINERS + (BUNDLED_LEAVES if spec['bundled'] == 'all' else ()))
     env = []
+    del OCC[:]
+    SETTINGS.clear()
+    SETTINGS.update(spec.get('settings') or {})
     v = build(tree, env)
     REPRS.clear()
     for x in env:
@@ -499,7 +524,24 @@ def execute(spec):
     REPEAT[0] = True
     width = spec['width']
     other = {'unrelated': [1, NT('z', [2])], 'k': (3,)}
+    INVOKED.clear()
     base = _print(v, width, {})
+    if 'max_seq_len' in SETTINGS and 'depth' not in SETTINGS:
+        # elements beyond max_seq_len are not shown, so their printers have no business running (and failing)
+        seen = {}
+        for oid, vis in OCC:
+            seen.setdefault(oid, []).append(vis)
+        hidden = [oid for oid, vs in seen.items() if all(x is False for x in vs)]
+        if hidden:
+            counters_hidden = len(hidden)
+            bad = [oid for oid in hidden if oid in INVOKED]
+            if bad:
+                return dict(steps=1, counters={'hidden_objects': counters_hidden}, nontrivial=False,
+                            digest=core.digest_of([tree, width]),
+                            **{'class': 'hidden_element_printed', 'signature': 'max_seq_len',
+                               'detail': dict(tree=tree, settings=dict(SETTINGS), hidden_objects=len(hidden),
+                                              printed_anyway=len(bad), text=base[0][1][:600] if base[0][0] == 'ok' else base[0]),
+                               'replay_spec': dict(spec, mode='base_only')})
     other_base = _print(other, 79, {}, {})[0]
     if base[0][0] != 'ok' or other_base[0] != 'ok':
         raise core.HarnessError('fault-free print raised: %r' % (base[0],))
